@@ -248,7 +248,8 @@ pub fn byron_spec() -> impl Strategy<Value = crate::byron::BSpec> {
     (
         prop::collection::vec((0u8..4, amount(), prop_oneof![6 => Just(0u8), 2 => Just(1u8), 1 => Just(2u8), 1 => Just(3u8)], 0u8..5, 0u8..3), 1..4),
         prop::collection::vec((0u8..4, prop_oneof![5 => 1_000_000u64..3_000_000, 1 => Just(0u64), 1 => Just(u64::MAX)]), 1..4),
-        prop_oneof![4 => 0i64..100_000, 2 => -200_000i64..0, 1 => any::<i64>()],
+        // fee = summand + multiplier * (size + 2) + delta: the validator's own boundary is at delta = -2 * multiplier = -88
+        prop_oneof![3 => 0i64..100_000, 3 => -92i64..-84, 2 => -200_000i64..0, 1 => any::<i64>()],
         prop_oneof![5 => Just(0i64), 1 => 1i64..1_000_000, 1 => Just(i64::MAX)],
         prop_oneof![5 => Just(0u8), 1 => 1u8..5],
     )
